@@ -447,13 +447,19 @@ def _arith(name, label, args, W, generics=None):
         if name == "unchecked_rotate_left" and 0 <= sft <= w:
             sft %= w
             return W.wrap(adt, (x << sft) | (x >> (w - sft)) if sft else x)
-        if name in ("overflowing_pow", "checked_pow", "wrapping_pow") and sft >= 0 and (x <= 1 or sft <= 4 * w):
-            r = x ** sft if x > 1 else (1 if (sft == 0 or x == 1) else 0)
+        if name in ("overflowing_pow", "checked_pow", "wrapping_pow") and sft >= 0:
+            if x <= 1:
+                r, over = (1 if (sft == 0 or x == 1) else 0), False
+            elif sft >= w:
+                r, over = pow(x, sft, 1 << w), True
+            else:
+                full = x ** sft
+                r, over = full, full > hi
             if name == "overflowing_pow":
-                return ("tuple", (W.wrap(adt, r), r > hi))
+                return ("tuple", (W.wrap(adt, r), over))
             if name == "wrapping_pow":
                 return W.wrap(adt, r)
-            return ("Some", W.wrap(adt, r)) if r <= hi else ("None",)
+            return ("None",) if over else ("Some", W.wrap(adt, r))
         if name == "bit" and 0 <= sft < w:
             return bool((x >> sft) & 1)
     if not signed and name == "power_of_two" and False:
